@@ -215,9 +215,11 @@ pub(super) fn merge_create_node(
     props: &std::collections::BTreeMap<String, PropertyValue>,
     created_count: &mut u32,
 ) -> Result<InternalNodeId> {
-    let external_id = ExternalId::from(
-        *created_count as u64 + chrono::Utc::now().timestamp_nanos_opt().unwrap_or(0) as u64,
-    );
+    #[cfg(not(nervusdb_verif))]
+    let now_nanos = chrono::Utc::now().timestamp_nanos_opt().unwrap_or(0);
+    #[cfg(nervusdb_verif)]
+    let now_nanos = crate::verif_clock::now_nanos();
+    let external_id = ExternalId::from(*created_count as u64 + now_nanos as u64);
     let label_id = if let Some(label) = node_pat.labels.first() {
         txn.get_or_create_label_id(label)?
     } else {
